@@ -890,7 +890,7 @@ func (b *byzantine) forgeBlock(src *node, hf *block.V2HeaderFormat, bf *block.V2
 	info := &forgedInfo{property: b.forge, invalid: true, height: h}
 	switch b.forge {
 	case "C07":
-		kinds := []string{"height+1", "height-1", "previd-random", "previd-grandparent", "version", "timestamp+1", "timestamp-1", "timestamp=parent", "timestamp<parent", "sibling-retimed", "sibling-retimed"}
+		kinds := []string{"height+1", "height-1", "previd-random", "previd-grandparent", "previd-extended", "previd-truncated", "version", "timestamp+1", "timestamp-1", "timestamp=parent", "timestamp<parent", "sibling-retimed", "sibling-retimed"}
 		k := kinds[t.Choose("forge.c07", len(kinds))]
 		if h == 1 && t.Permille("forge.c07.h1", 600) {
 			// not a forgery at all: nothing constrains the timestamp of a height-1 block, so the proposer may
@@ -911,6 +911,15 @@ func (b *byzantine) forgeBlock(src *node, hf *block.V2HeaderFormat, bf *block.V2
 			nh.Height--
 		case "previd-random":
 			nh.PrevID = t.Bytes("forge.previd", 32)
+		case "previd-extended":
+			// the parent's id followed by extra bytes: still not "its parent's id"
+			ext := [][]byte{{0}, {1}, {0, 0, 0, 0}, t.Bytes("forge.previd.ext", 3)}[t.Choose("forge.previd.extkind", 4)]
+			nh.PrevID = append(append([]byte{}, hf.PrevID...), ext...)
+		case "previd-truncated":
+			if len(hf.PrevID) < 2 {
+				return nil, nil
+			}
+			nh.PrevID = append([]byte{}, hf.PrevID[:len(hf.PrevID)-1-t.Choose("forge.previd.cut", 3)]...)
 		case "previd-grandparent":
 			ids := b.blockByH[h-2]
 			if len(ids) == 0 {
